@@ -984,6 +984,36 @@ fn run_inner(case: &StressCase) -> SResult {
                 return SResult::violation(&["C20"], "worker_died", format!("configuration {:?}: a background processor went away during the workload (constructed {} dropped {})", case.cfg, w.0 - w_before.0, w.1 - w_before.1));
             }
         }
+        // "the background workers terminate after close()": while handles are still alive (once
+        // every handle is gone the workers stop anyway, which would hide a lost stop signal)
+        if case.kind == Kind::Close && closed && !case.drop_only {
+            let deadline = Instant::now() + Duration::from_secs(4);
+            loop {
+                let w = stretto::verif::workers();
+                let started = w.0 - w_before.0;
+                let exited = w.1 - w_before.1;
+                let tasks_ok = !case.exec.is_async() || (TASKS_FINISHED.load(Ordering::SeqCst) - t_before.1) == (TASKS_STARTED.load(Ordering::SeqCst) - t_before.0);
+                if started == exited && tasks_ok {
+                    break;
+                }
+                if Instant::now() > deadline {
+                    let c0 = cpu_ticks();
+                    std::thread::sleep(Duration::from_millis(300));
+                    let busy = cpu_ticks() - c0 > 3;
+                    let msg = format!(
+                        "close() returned Ok and a handle is still alive, but after 4 s the background workers have not terminated: processors constructed {} dropped {}; async tasks started {} finished {}{}",
+                        started,
+                        exited,
+                        TASKS_STARTED.load(Ordering::SeqCst) - t_before.0,
+                        TASKS_FINISHED.load(Ordering::SeqCst) - t_before.1,
+                        if busy { " (CPU busy)" } else { "" }
+                    );
+                    return SResult::violation(&["C12"], "workers_remain_after_close", msg);
+                }
+                std::thread::sleep(Duration::from_millis(2));
+            }
+            res.classes.push("workers_terminated_with_handle_alive".into());
+        }
         drop(api);
         if must_exit || case.kind == Kind::Config {
             let deadline = Instant::now() + Duration::from_secs(4);
